@@ -126,6 +126,16 @@ def run(rep, tier):
                 owners.add(p)
     rep.ob(rf, "owners", owners == {im.fn}, "functions with raw memory primitives reachable from the interpreter entry",
            expected=[im.fn], found=sorted(owners))
+    # R02.h a refusal is an error value: the bounds check itself cannot panic
+    rh = rep.rule("R02.h", "panic inventory of the bounds check (and the closures that call it): a refused access is an Err, never a panic", floor=1)
+    from common import Row, sites_to_obligations
+    inv = cx.inventory()
+    sites, reach = inv.run([im.bc])
+    rows = [Row("slice-end", r".", r"^Overflow\(Add\)\(\((\[T\]|slice\[T\]|Vec<T, A>)::as_ptr\((.*)\) as u64\),\((\[T\]|slice\[T\]|Vec<T, A>)::len\(\2\) as u64\)\)$", "A",
+                "language guarantee: the end address of a live slice does not wrap")]
+    stats = sites_to_obligations(rep, rh, sites, rows)
+    rep.info("bounds_check_site_stats", stats)
+
     # R02.g the regions handed to the bounds check, and how allowed ranges get registered
     rg = rep.rule("R02.g", "every bounds check is handed the four regions themselves (metadata buffer, packet, the whole stack, the registered ranges); registering a range stores it unchanged", floor=5)
     bad, nchk = [], 0
